@@ -188,9 +188,9 @@ package check
 //@   callsite (*Engine).checkComputedSubjectSet requires[C01] child-on-the-same-tuple: $arg2 == tuple && $arg3 == c
 //@   callsite (*Engine).checkSubjectSetRewrite requires[C01] child-on-the-same-tuple: $arg2 == tuple && $arg3 == c
 //@   callsite (*Engine).checkInverted requires[C01] child-on-the-same-tuple: $arg2 == tuple && $arg3 == c
-//@   callsite (*Engine).checkComputedSubjectSet requires[C01] and-operands-get-their-own-visited-sets: rewrite.Operation == ast.OperatorAnd ==> (vset(ctx) == 0 || vset($arg1) != vset(ctx))
-//@   callsite (*Engine).checkSubjectSetRewrite requires[C01] and-operands-get-their-own-visited-sets: rewrite.Operation == ast.OperatorAnd ==> (vset(ctx) == 0 || vset($arg1) != vset(ctx))
-//@   callsite (*Engine).checkInverted requires[C01] and-operands-get-their-own-visited-sets: rewrite.Operation == ast.OperatorAnd ==> (vset(ctx) == 0 || vset($arg1) != vset(ctx))
+//@   callsite (*Engine).checkComputedSubjectSet requires[C01] and-operands-get-their-own-visited-sets: rewrite.Operation == ast.OperatorAnd ==> (vset(ctx) == 0 || (vset($arg1) != vset(ctx) && forkid($arg1) > athead(forkctr)))
+//@   callsite (*Engine).checkSubjectSetRewrite requires[C01] and-operands-get-their-own-visited-sets: rewrite.Operation == ast.OperatorAnd ==> (vset(ctx) == 0 || (vset($arg1) != vset(ctx) && forkid($arg1) > athead(forkctr)))
+//@   callsite (*Engine).checkInverted requires[C01] and-operands-get-their-own-visited-sets: rewrite.Operation == ast.OperatorAnd ==> (vset(ctx) == 0 || (vset($arg1) != vset(ctx) && forkid($arg1) > athead(forkctr)))
 //@   callsite withOwnVisitedSet requires[C01] and-operands-get-their-own-visited-sets: rewrite.Operation == ast.OperatorAnd
 //@   props C02 C03 C15
 //@   modifies nothing
@@ -257,6 +257,7 @@ package check
 
 //@ func (*Engine).checkInverted$1
 //@   props C03 C15
+//@   ensures[C02] only-a-definite-no-is-inverted-to-yes: (recvd(innerCh) == 1 && hist(innerCh, 0).Err == nil && hist(innerCh, 0).Membership != checkgroup.NotMember) ==> lastsent(resultCh).Membership != checkgroup.IsMember
 //@   ensures[C01] negation-step: (recvd(innerCh) == 1 && hist(innerCh, 0).Err == nil) ==> (hist(innerCh, 0).Membership == checkgroup.IsMember ==> lastsent(resultCh).Membership == checkgroup.NotMember) && (hist(innerCh, 0).Membership == checkgroup.NotMember ==> lastsent(resultCh).Membership == checkgroup.IsMember)
 //@   opt abandon-props C15
 //@   like functype::checkgroup.CheckFunc
